@@ -1,5 +1,5 @@
 PROP = dict(
-    go='c06', n_quick=160, n_thorough=3000, shard=20,
+    go='c06', n_quick=130, n_thorough=3000, shard=20,
     coq_header='From LC Require Import Lib.Bytes Model.StageList Cases.C06.\nOpen Scope string_scope.\n',
     case_type='C06.case', verdict='C06.verdict', explain='C06.model',
     rule='generated build roots (stage skeleton + 4..25 extra files, directories, symlinks incl. chains/cycles/dangling, '
